@@ -1,3 +1,12 @@
+mod c18;
+mod c19;
+mod refs;
+
+use pvkit::session::CheckDef;
+
 fn main() {
-    pvkit::main(&[]);
+    pvkit::main(&[
+        CheckDef { id: "C18", level: "exploration", run: c18::run },
+        CheckDef { id: "C19", level: "exploration", run: c19::run },
+    ]);
 }
